@@ -165,7 +165,7 @@ Proof.
   - exact ex_sig_fine.
   - exact ex_args_typed.
   - exact ex_outs_skippable.
-  - exact ex_outs_fresh.
+  - split; [repeat constructor|exact eq_refl].
   - reflexivity.
   - exact ex_results_typed.
   - exact ex_req_sendable.
@@ -226,3 +226,42 @@ Proof.
   exact (conj eq_refl (conj fx_sig_fine (conj fx_prefilled_typed (conj fx_prefilled_skippable (conj fx_empty_typed
           (conj fx_qp_sendable (conj fx_rp_sendable fx_prefilled_result))))))).
 Qed.
+
+(* ... and it is an instance of the theorem for arbitrary content of the out variables (EndToEndFull.transparent_ok_any_outs):
+   every hypothesis holds of the pre-filled call, by computation *)
+Example fx_no_arrays : no_array_params fx_sig.
+Proof. split; [repeat constructor|exact eq_refl]. Qed.
+Example fx_canonical : canonical_call env0 fx_sig fx_args_prefilled ex_ret fx_outs_empty.
+Proof. split; vm_compute; reflexivity. Qed.
+Example fx_prefilled_by_theorem :
+  call env0 SR SP MAXP fx_impl_empty (filters_of inv_res ex_pc) (filters_of disp_res ex_ps) [fx_sig] fx_sig fx_args_prefilled ex_opts false 41 [79; 98; 106] 3000
+  = (COk ex_ret fx_outs_empty [ex_rc; ex_rs], core_events ex_pc ex_ps fx_sig fx_args_prefilled ex_opts true).
+Proof.
+  apply (transparent_ok_any_outs env0 2 fx_env0_wf ltac:(lia) SR SP eq_refl eq_refl MAXP ltac:(vm_compute; reflexivity) 4
+           fx_impl_empty ex_pc ex_ps [fx_sig] fx_sig fx_args_prefilled ex_opts 41 [79; 98; 106] 3000 ex_ret fx_outs_empty ex_rc ex_rs).
+  - vm_compute. reflexivity.
+  - exact fx_sig_fine.
+  - exact fx_prefilled_typed.
+  - exact fx_prefilled_skippable.
+  - exact fx_no_arrays.
+  - reflexivity.
+  - exact I.
+  - exact fx_empty_typed.
+  - exact fx_canonical.
+  - exact fx_qp_sendable.
+  - exact fx_rp_sendable.
+Qed.
+
+(* ---------- why [canonical_call] is needed for exact values: an optional double member without a declared default
+   that holds -0.0 compares equal to the default 0.0, is not written, and the implementation receives +0.0
+   (void f(NumLast a) on the regenerated schema verifidl2.NumLast; everything else arrives exactly) ---------- *)
+Definition nz_sig : fsig := {| fs_name := [110; 122]; fs_ret := None; fs_args := [(TStruct sid_verifidl2_NumLast, false)] |}.
+Definition nz_args : list val := [VStruct [VStr [120]; VInt 7; VFlt 9223372036854775808; VFlt 0]].
+Definition nz_impl : bytes -> list val -> smap -> smap -> impl_res := fun _ _ _ _ => IOk None [] [] [].
+Example nz_typed : args_typed env0 (fs_args nz_sig) nz_args.
+Proof. unfold args_typed. typed_list. Qed.
+Example nz_minus_zero_arrives_as_plus_zero :
+  filter is_obs (snd (call env0 SR SP MAXP nz_impl (filters_of inv_res no_filters) (filters_of disp_res no_filters) [nz_sig] nz_sig nz_args [] false 41 [79] 3000))
+  = [EImpl (fs_name nz_sig) [VStruct [VStr [120]; VInt 7; VFlt 0; VFlt 0]] [] []]
+  /\ ins_seen env0 nz_sig nz_args <> ins_of nz_sig nz_args.
+Proof. split; [vm_compute; reflexivity|vm_compute; discriminate]. Qed.
